@@ -1,12 +1,14 @@
 (** C15  Reported error locations point into the form that failed.
-    Property theorems only - PARTIAL: how locations are produced (lexer) and handed on (expander,
-    eval_ast); that every located evaluator error carries the location of an expression of the
-    form being evaluated is not proved and rests on the correspondence (fault programs under random
-    layouts, extents known from the renderer). Convention of the code: a location is the cursor
+    Property theorems only: how locations are produced (lexer) and handed on (expander, eval_ast),
+    and where the locations of evaluator errors come from ([C15_error_location_has_a_source]: only from
+    the expression evaluated and from procedure bodies that exist in the store). That the locations
+    written in a form lie inside the form's extent in the text is the reader's part, checked by the
+    correspondence (fault programs under random layouts, extents known from the renderer).
+    Convention of the code: a location is the cursor
     position after the token; [pos_le] orders positions by line, then column. *)
 From Coq Require Import NArith List Bool.
-From RV Require Import Model.Common Model.Datum Model.Lexer Model.Macro Model.Ast Model.Interp
-  Proofs.LexProofs Proofs.LocProofs.
+From RV Require Import Model.Common Model.Datum Model.Lexer Model.Macro Model.Ast Model.Value Model.Eval Model.Interp
+  Spec.EvalSpec Proofs.LexProofs Proofs.LocProofs Proofs.LocInvProofs.
 Import ListNotations.
 
 (** the cursor only moves forward, through tokens as well as through layout *)
@@ -39,3 +41,26 @@ Proof. exact expansion_takes_use_location. Qed.
 Theorem C15_expansion_keeps_own_location : forall ex l p, dloc ex = Some p ->
   dloc (set_dloc ex (loc_or (dloc ex) l)) = Some p.
 Proof. exact expansion_keeps_own_location. Qed.
+
+(** the evaluator never invents a location. Let L be any set of locations that contains "no location",
+    every location written in the expression ([eok L e]) and every location written in the body of a
+    procedure stored in the state ([slok L st]: closures made by earlier forms and by the libraries).
+    Then a located error of the evaluation - at any depth, in any calling context - carries a location
+    of L; and the state reached, and any value returned, again hold only closures written with
+    locations of L (so the statement applies to the next form as well) *)
+Theorem C15_error_location_has_a_source : forall (L : loc -> Prop) st env e k l st',
+  L None -> ev st env e (Err k l) st' -> slok L st -> eok L e -> L l.
+Proof. exact error_location_has_a_source. Qed.
+
+Theorem C15_evaluator_error_location_has_a_source : forall (L : loc -> Prop) fuel e env st k l st',
+  L None -> eval_expr fuel e env st = (Err k l, st') -> slok L st -> eok L e -> L l.
+Proof. exact evaluator_error_location_has_a_source. Qed.
+
+Theorem C15_closures_keep_their_locations : forall (L : loc -> Prop) st env e r st',
+  L None -> ev st env e r st' -> slok L st -> eok L e -> slok L st' /\ forall v, r = Ok v -> vlok L v.
+Proof. exact closures_keep_their_locations. Qed.
+
+(** the errors of native procedures carry no location at all (they receive the form's, see above) *)
+Theorem C15_native_errors_are_unlocated : forall name args st k l st',
+  Model.Builtins.builtin_call name args st = (Err k l, st') -> l = None.
+Proof. exact native_errors_are_unlocated. Qed.
